@@ -51,6 +51,9 @@ type renderEvent struct {
 	Cfg   renderCfg `json:"cfg"`
 	Rows  []string  `json:"rows"`
 	Pages []pageRec `json:"pages"`
+	// bytes of the one page that shows everything (static part, all rows, ordinary menu) without browse entries - computed by
+	// the recorder from the strings it made, not by the library
+	OnePage int `json:"onepage"`
 }
 
 type simpleRes struct {
@@ -114,6 +117,10 @@ func renderFamily(c renderCfg, maxidx int) renderEvent {
 	prevSel, prevTitle := entry(c.PrevLen, "22", c.Utf)
 	ordSel, ordTitle := entry(c.Menu, "0", c.Utf)
 	ev := renderEvent{Ev: "render", Cfg: c, Rows: rows}
+	ev.OnePage = len(static) + len(content)
+	if c.Menu > 0 && !c.Msink {
+		ev.OnePage += 1 + len(ordSel) + 1 + len(ordTitle)
+	}
 	for idx := 0; idx <= maxidx; idx++ {
 		var out string
 		var rerr error
